@@ -139,7 +139,7 @@ class SeqV:
 class Opaque:
     kind: str  # module | dtype-real | dtype-complex | dtype-bool | func | class | str | none | object
     name: str = ""
-    ref: object = dfield(default=None, compare=False, hash=False)
+    ref: object = dfield(default=None, compare=False, hash=False, repr=False)
 
 
 @dataclass(frozen=True)
@@ -147,7 +147,7 @@ class ObjV:
     """An array object (Waves, PotentialArray, ...) abstracted by the class of its array."""
     cls: str
     array: object
-    ref: object = dfield(default=None, compare=False, hash=False)
+    ref: object = dfield(default=None, compare=False, hash=False, repr=False)
 
 
 MODULE = Opaque("module", "xp")
@@ -1322,11 +1322,9 @@ class _Frame:
         if short in _BOOL_FUNCS:
             return boolean()
         if short in _FOURIER_FUNCS:
-            notes = frozenset()
-            for v in args[:2]:
-                if isinstance(v, (AV, ObjV)):
-                    notes |= frozenset(x for x in as_av(v, full).notes if x.startswith("unknown:"))
-            return cplx(0.0, INF, notes)  # a Fourier-space operation keeps no pointwise bound
+            # a Fourier-space operation keeps no pointwise bound whatever its input: this is a *modelled* loss
+            # (no note), so a requirement failing on it is a violation, not an analysis error
+            return cplx(0.0, INF)
         if short == "map_blocks":
             return self.map_blocks(args, kwargs, n)
         if short in ("float", "int"):
